@@ -1,49 +1,328 @@
-(* C05 — deleteEmpty.
+(* C05 — deleteEmpty / delpaths (one-step paths).
    1. the function as it is in /repo today (owned_only = false) WRITES into containers the call does
-      not own: concrete witness [de_witness] (D6 of DESIGN.md);
+      not own: concrete witnesses [de_witness], [delpaths_witness] (D6 of DESIGN.md);
    2. all those writes store the value that was already there: every cell of a marker-free region that
-      is closed under reachability is left exactly as it was ([de_values_unchanged]);
-   3. the repaired function (owned_only = true: return at once on a container the allocator does not own)
-      keeps the discipline ([de_owned_psafe]). *)
+      is closed under reachability is left exactly as it was ([de_cells_unchanged],
+      [delpaths1_cells_unchanged]);
+   3. the repaired function (owned_only = true: return at once on a container the allocator does not
+      own) keeps the discipline ([delpaths1_owned_psafe]). *)
 From Coq Require Import List NArith ZArith Bool Arith Lia.
 From Verif Require Import c05.Heap c05.HeapProofs c05.Natives c05.NativeProofs.
 Import ListNotations.
 Open Scope nat_scope.
 
-(* ---- 1. witness: {a: <marker>, b: [1]} where the array [1] is cell 0 (not owned), the object is cell 1
-   (owned: it is the copy made by the update).  deleteEmpty writes cell 0. ---- *)
+(* ---- 1. witnesses ---- *)
+(* {a: <marker>, b: [1]}: the array [1] is cell 0 (not owned), the object is cell 1 (owned: it is the
+   copy made by the update).  deleteEmpty writes cell 0, with the value it already had. *)
 Definition wit_heap : heap := [CArr [VNum 1]; CMap [([97%N], VEmpty); ([98%N], VArr 0 0 1 1)]].
-Definition wit_run := run (delete_empty false [1] 8 (VObj 1)) (start wit_heap [1]).
 
 Lemma de_witness :
-  exists r s', wit_run = Some (r, s') /\ In 0 (wr s') /\ ~ In 0 (al s') /\ safeb s' = false
+  exists r s', run (delete_empty false [1] 8 (VObj 1)) (start wit_heap [1]) = Some (r, s')
+               /\ In 0 (wr s') /\ ~ In 0 (al s') /\ safeb s' = false
                /\ nth_error (hp s') 0 = nth_error wit_heap 0.
 Proof.
-  unfold wit_run. vm_compute. do 2 eexists. split; [reflexivity|].
+  vm_compute. do 2 eexists. split; [reflexivity|].
   split; [cbn; auto|]. split; [cbn; intuition discriminate|]. split; reflexivity.
 Qed.
-
-(* the same call with the repaired function writes nothing but the owned cell 1 *)
 Lemma de_witness_repaired :
-  exists r s', run (delete_empty true [1] 8 (VObj 1)) (start wit_heap [1]) = Some (r, s') /\ wr s' = [1] /\ safeb s' = true.
+  exists r s', run (delete_empty true [1] 8 (VObj 1)) (start wit_heap [1]) = Some (r, s') /\ wr s' = [1; 1] /\ safeb s' = true.
 Proof. vm_compute. do 2 eexists. split; [reflexivity|]. split; reflexivity. Qed.
 
-(* ---- 3. the repaired variant keeps the discipline ---- *)
-Lemma allocated_owned : forall alloc s v a,
-  (forall x, In x alloc -> owned x s) -> allocated alloc v = true -> vaddr v = Some a \/ (exists o l c, v = VArr a o l c) -> owned a s.
+(* the whole native: {"a": 1, "b": [1]} | delpaths([["a"]]) with NOTHING owned at the start: the input
+   object (cell 1) is copied, the untouched sibling array (cell 0) is written *)
+Definition wit_heap2 : heap := [CArr [VNum 1]; CMap [([97%N], VNum 1); ([98%N], VArr 0 0 1 1)]].
+Lemma delpaths_witness :
+  exists r s', run (delpaths1 false (VObj 1) [VStr [97%N]]) (start wit_heap2 []) = Some (r, s')
+               /\ In 0 (wr s') /\ ~ In 0 (al s') /\ safeb s' = false
+               /\ firstn 2 (hp s') = wit_heap2.
 Proof.
-  intros alloc s v a H A V. destruct v; cbn in A; try discriminate.
-  - apply andb_prop in A. destruct A as [A _]. apply existsb_exists in A. destruct A as [x [Hx E]].
-    apply Nat.eqb_eq in E. subst x.
-    destruct V as [V|(o & l & c & V)]. cbn in V. destruct (len =? 0); inversion V; subst; auto. inversion V; subst; auto.
-  - apply existsb_exists in A. destruct A as [x [Hx E]]. apply Nat.eqb_eq in E. subst x.
-    destruct V as [V|(o & l & c & V)]. cbn in V. inversion V; subst; auto. discriminate.
+  vm_compute. do 2 eexists. split; [reflexivity|].
+  split; [cbn; auto|]. split; [cbn; intuition discriminate|]. split; reflexivity.
+Qed.
+Lemma delpaths_witness_repaired :
+  exists r s', run (delpaths1 true (VObj 1) [VStr [97%N]]) (start wit_heap2 []) = Some (r, s') /\ safeb s' = true.
+Proof. vm_compute. do 2 eexists. split; reflexivity. Qed.
+
+(* ---- 3. the repaired variant keeps the discipline ---- *)
+Definition inv (alloc : list addr) (s : st) : Prop := safe s /\ forall x, In x alloc -> owned x s.
+Definition pres (alloc : list addr) {A} (p : prog A) : Prop :=
+  forall s r s', inv alloc s -> run p s = Some (r, s') -> inv alloc s'.
+
+Lemma pres_ret : forall alloc A (a : A), pres alloc (Ret a).
+Proof. intros alloc A a s r s' I E. cbn in E; inversion E; subst; auto. Qed.
+Lemma pres_fail : forall alloc A, pres alloc (@Fail A).
+Proof. intros alloc A s r s' I E. discriminate. Qed.
+Lemma pres_bind : forall alloc A B (p : prog A) (f : A -> prog B), pres alloc p -> (forall a, pres alloc (f a)) -> pres alloc (bind p f).
+Proof.
+  intros alloc A B p f Hp Hf s r s' I E. rewrite run_bind in E. destruct (run p s) as [[a s1]|] eqn:E1; try discriminate.
+  eapply Hf; [|eauto]. eapply Hp; eauto.
+Qed.
+Lemma pres_get : forall alloc A a (k : cell -> prog A), (forall c, pres alloc (k c)) -> pres alloc (Get a k).
+Proof. intros alloc A a k H s r s' I E. cbn [run] in E. destruct (nth_error (hp s) a); try discriminate. eapply H; eauto. Qed.
+Lemma pres_put : forall alloc A a c (k : prog A), In a alloc -> pres alloc k -> pres alloc (Put a c k).
+Proof.
+  intros alloc A a c k Ha H s r s' [S O] E. cbn [run] in E. destruct (a <? length (hp s)); try discriminate.
+  eapply H; [|eauto]. split. apply safe_put; auto. intros x Hx. apply O in Hx. exact Hx.
 Qed.
 
-Section Loops.
-Variable rec : val -> prog val.
+Lemma de_obj_loop_pres : forall alloc rec a v ks, In a alloc -> (forall w, pres alloc (rec w)) -> pres alloc (de_obj_loop rec a v ks).
+Proof.
+  intros alloc rec a v ks Ha Hr. induction ks; cbn [de_obj_loop]. apply pres_ret.
+  apply pres_get. intros c. destruct c; try apply pres_fail.
+  destruct (map_get a0 kvs) as [w|]; auto.
+  assert (pres alloc (w' <- rec w ;; Get a (fun c => match c with CMap m => Put a (CMap (map_set a0 w' m)) (de_obj_loop rec a v ks) | CArr _ => Fail end))) as G.
+  { apply pres_bind; auto. intros w'. apply pres_get. intros c. destruct c; try apply pres_fail. apply pres_put; auto. }
+  destruct w; auto. apply pres_put; auto.
+Qed.
 
-Lemma de_obj_loop_psafe : forall a v ks, psafe_own a (de_obj_loop rec a v ks)
-with dummy : True.
-Proof. Abort.
-End Loops.
+Lemma de_arr_loop_pres : forall alloc rec a off len cap n i j, In a alloc -> (forall w, pres alloc (rec w)) ->
+  pres alloc (de_arr_loop rec a off len cap n i j).
+Proof.
+  intros alloc rec a off len cap n i j Ha Hr. revert i j. induction n; intros i j; cbn [de_arr_loop].
+  - destruct (j <? len); try apply pres_ret. apply pres_get. intros c. destruct c; try apply pres_fail.
+    apply pres_put; auto. apply pres_ret.
+  - apply pres_get. intros c. destruct c; try apply pres_fail.
+    destruct (nth_error xs (off + i)) as [w|]; try apply pres_fail.
+    assert (pres alloc (w' <- rec w ;; Get a (fun c => match c with CArr cells => Put a (CArr (set_nth (off + j) w' cells)) (de_arr_loop rec a off len cap n (S i) (S j)) | CMap _ => Fail end))) as G.
+    { apply pres_bind; auto. intros w'. apply pres_get. intros c. destruct c; try apply pres_fail. apply pres_put; auto. }
+    destruct w; auto.
+Qed.
+
+Lemma allocated_in : forall alloc v, allocated alloc v = true -> exists a, In a alloc /\
+  (v = VObj a \/ exists o l c, v = VArr a o l c).
+Proof.
+  intros alloc v A. destruct v; cbn in A; try discriminate.
+  - apply andb_prop in A. destruct A as [A _]. apply existsb_exists in A. destruct A as [x [Hx E]].
+    apply Nat.eqb_eq in E. subst x. exists a. split; auto. right. eauto.
+  - apply existsb_exists in A. destruct A as [x [Hx E]]. apply Nat.eqb_eq in E. subst x. exists a. auto.
+Qed.
+
+Lemma delete_empty_owned_pres : forall alloc fuel v, pres alloc (delete_empty true alloc fuel v).
+Proof.
+  intros alloc. induction fuel; intros v; cbn [delete_empty]. apply pres_fail.
+  destruct v; try apply pres_ret.
+  - destruct (allocated alloc (VArr a off len cap)) eqn:Al; cbn [andb negb]; try apply pres_ret.
+    apply allocated_in in Al. destruct Al as (a' & Ha & [E|(o & l & c & E)]); inversion E; subst.
+    apply de_arr_loop_pres; auto.
+  - destruct (allocated alloc (VObj a)) eqn:Al; cbn [andb negb]; try apply pres_ret.
+    apply allocated_in in Al. destruct Al as (a' & Ha & [E|(o & l & c & E)]); inversion E; subst.
+    apply pres_get. intros c. destruct c; try apply pres_fail. apply de_obj_loop_pres; auto.
+Qed.
+
+(* update of one step with the marker: writes only into containers of the allocator, registers what it creates *)
+Lemma upd1_spec : forall u p alloc s r s',
+  inv alloc s -> run (upd1 u p alloc) s = Some (r, s') -> inv (snd r) s'.
+Proof.
+  intros u p alloc s r s' [S O] E. unfold upd1 in E.
+  destruct p; try discriminate.
+  - (* number *)
+    destruct u; try discriminate; try (cbn in E; inversion E; subst; split; auto; fail).
+    destruct (clamp z (-1) (Z.of_nat len) <? 0)%Z; try (cbn in E; inversion E; subst; split; auto; fail).
+    destruct (clamp z (-1) (Z.of_nat len) <? Z.of_nat len)%Z; try (cbn in E; inversion E; subst; split; auto; fail).
+    cbn [run] in E. destruct (nth_error (hp s) a) as [[cells|]|]; try discriminate.
+    destruct (allocated alloc (VArr a off len cap)) eqn:Al.
+    + cbn [run] in E. destruct (a <? length (hp s)); try discriminate. cbn [run] in E. inversion E; subst; clear E.
+      apply allocated_in in Al. destruct Al as (a' & Ha & [E|(o & l & c & E)]); inversion E; subst.
+      split. apply safe_put; auto. cbn. auto.
+    + cbn [run] in E. inversion E; subst; clear E. cbn [snd].
+      split. apply safe_new; auto. intros x [Hx|Hx]. subst. left; auto. right. apply O; auto.
+  - (* string *)
+    destruct u; try discriminate; try (cbn in E; inversion E; subst; split; auto; fail).
+    cbn [run] in E. destruct (nth_error (hp s) a) as [[|m]|]; try discriminate.
+    destruct (map_get s0 m); try (cbn in E; inversion E; subst; split; auto; fail).
+    destruct (allocated alloc (VObj a)) eqn:Al.
+    + cbn [run] in E. destruct (a <? length (hp s)); try discriminate. cbn [run] in E. inversion E; subst; clear E.
+      apply allocated_in in Al. destruct Al as (a' & Ha & [E|(o & l & c & E)]); inversion E; subst.
+      split. apply safe_put; auto. cbn. auto.
+    + cbn [run] in E. inversion E; subst; clear E. cbn [snd].
+      split. apply safe_new; auto. intros x [Hx|Hx]. subst. left; auto. right. apply O; auto.
+Qed.
+
+Lemma upd_all_spec : forall ps u alloc s r s',
+  inv alloc s -> run (upd_all u ps alloc) s = Some (r, s') -> inv (snd r) s'.
+Proof.
+  induction ps; intros u alloc s r s' I E; cbn [upd_all] in E.
+  - cbn in E; inversion E; subst; auto.
+  - rewrite run_bind in E. destruct (run (upd1 u a alloc) s) as [[ua s1]|] eqn:E1; try discriminate.
+    apply upd1_spec in E1; auto. eapply IHps; eauto.
+Qed.
+
+Theorem delpaths1_owned_psafe : forall v ps, psafe (delpaths1 true v ps).
+Proof.
+  intros v ps s r s' S E. unfold delpaths1 in E. destruct ps. cbn in E; inversion E; subst; auto.
+  rewrite run_bind in E. destruct (run (upd_all v (v0 :: ps) []) s) as [[ua s1]|] eqn:E1; try discriminate.
+  apply upd_all_spec in E1. 2:{ split; auto. intros x []. }
+  apply delete_empty_owned_pres in E; auto. apply E.
+Qed.
+
+(* the updates alone keep the discipline in both variants *)
+Lemma upd_all_psafe : forall ps u, psafe (upd_all u ps []).
+Proof. intros ps u s r s' S E. apply upd_all_spec in E. apply E. split; auto. intros x []. Qed.
+
+(* ---- 2. value level: the current deleteEmpty rewrites what was there ---- *)
+Section Clean.
+Variable R : addr -> Prop.
+
+(* cells of R hold no marker and only mention containers of R *)
+Definition clean (h : heap) : Prop :=
+  forall a c, R a -> nth_error h a = Some c -> Forall (fun v => v <> VEmpty /\ vin R v) (cell_vals c).
+
+Lemma clean_closed : forall h, clean h -> closed R h.
+Proof.
+  intros h C a c Ra E. specialize (C a c Ra E). rewrite Forall_forall in *. intros x Hx. apply C; auto.
+Qed.
+Lemma agree_refl : forall h, agree R h h.
+Proof. intros h a _. auto. Qed.
+Lemma agree_trans : forall h1 h2 h3, agree R h1 h2 -> agree R h2 h3 -> agree R h1 h3.
+Proof. intros h1 h2 h3 A B a Ra. rewrite B, A; auto. Qed.
+Lemma clean_agree : forall h h', clean h -> agree R h h' -> clean h'.
+Proof. intros h h' C A a c Ra E. rewrite A in E; auto. eapply C; eauto. Qed.
+
+Lemma map_get_in : forall (k : key) (m : list (key * val)) w, map_get k m = Some w -> In w (map snd m).
+Proof.
+  induction m as [|[k' v'] m IH]; cbn; intros w E; try discriminate.
+  destruct (key_eqb k k'). inversion E; auto. right; auto.
+Qed.
+Lemma map_repl_same : forall (k : key) (m : list (key * val)) w, map_get k m = Some w -> map_repl k w m = m.
+Proof.
+  induction m as [|[k' v'] m IH]; cbn; intros w E; auto.
+  destruct (key_eqb k k'). inversion E; auto. f_equal; auto.
+Qed.
+Lemma map_set_same : forall (k : key) (m : list (key * val)) w, map_get k m = Some w -> map_set k w m = m.
+Proof. intros k m w E. unfold map_set. rewrite E. apply map_repl_same; auto. Qed.
+
+Lemma agree_put_other : forall h a c, ~ R a -> agree R h (set_nth a c h).
+Proof. intros h a c N x Rx. apply nth_error_set_nth_other. intro; subst; auto. Qed.
+
+Definition good (rec : val -> prog val) : Prop :=
+  forall w s r s', clean (hp s) -> run (rec w) s = Some (r, s') ->
+    agree R (hp s) (hp s') /\ (w <> VEmpty -> vin R w -> r = w).
+
+Lemma agree_put : forall s a c,
+  (R a -> nth_error (hp s) a = Some c) -> a < length (hp s) -> agree R (hp s) (set_nth a c (hp s)).
+Proof.
+  intros s a c H L x Rx. destruct (Nat.eq_dec x a).
+  - subst. rewrite nth_error_set_nth_same; auto. symmetry; auto.
+  - apply nth_error_set_nth_other; auto.
+Qed.
+
+Lemma de_obj_loop_clean : forall rec a v, good rec -> forall ks s r s',
+  clean (hp s) -> run (de_obj_loop rec a v ks) s = Some (r, s') -> agree R (hp s) (hp s') /\ r = v.
+Proof.
+  intros rec a v G. induction ks; intros s r s' C E; cbn [de_obj_loop] in E.
+  - cbn in E; inversion E; subst. split; auto using agree_refl.
+  - cbn [run] in E. destruct (nth_error (hp s) a) as [[|m]|] eqn:Ea; try discriminate.
+    destruct (map_get a0 m) as [w|] eqn:Eg; [|apply IHks; auto].
+    assert (R a -> w <> VEmpty /\ vin R w) as Hw.
+    { intros Ra. specialize (C a _ Ra Ea). cbn in C. rewrite Forall_forall in C. apply C. eapply map_get_in; eauto. }
+    assert (run (w' <- rec w ;; Get a (fun c => match c with CMap m => Put a (CMap (map_set a0 w' m)) (de_obj_loop rec a v ks) | CArr _ => Fail end)) s = Some (r, s')
+            -> agree R (hp s) (hp s') /\ r = v) as Gen.
+    { clear E. intros E. rewrite run_bind in E. destruct (run (rec w) s) as [[w' s1]|] eqn:E1; try discriminate.
+      destruct (G _ _ _ _ C E1) as [A1 W1]. cbn [run] in E.
+      destruct (nth_error (hp s1) a) as [[|m1]|] eqn:Ea1; try discriminate. cbn [run] in E.
+      destruct (a <? length (hp s1)) eqn:La; try discriminate. apply Nat.ltb_lt in La.
+      assert (agree R (hp s1) (set_nth a (CMap (map_set a0 w' m1)) (hp s1))) as A2.
+      { apply agree_put; auto. intros Ra. destruct (Hw Ra) as [Hn Hv]. rewrite (W1 Hn Hv).
+        rewrite (A1 a Ra) in Ea1. rewrite Ea in Ea1. inversion Ea1; subst. rewrite map_set_same; auto.
+        rewrite (A1 a Ra). auto. }
+      apply IHks in E. 2:{ cbn [hp]. eapply clean_agree; [|exact A2]. eapply clean_agree; eauto. }
+      cbn [hp] in E. destruct E as [A3 Er]. split; auto. eapply agree_trans; [exact A1|]. eapply agree_trans; eauto. }
+    destruct w; try (apply Gen; exact E).
+    (* a marker entry: impossible inside R *)
+    cbn [run] in E. destruct (a <? length (hp s)) eqn:La; try discriminate. apply Nat.ltb_lt in La.
+    assert (agree R (hp s) (set_nth a (CMap (map_del a0 m)) (hp s))) as A2.
+    { apply agree_put; auto. intros Ra. destruct (Hw Ra) as [Hn _]. congruence. }
+    apply IHks in E. 2:{ cbn [hp]. eapply clean_agree; eauto. }
+    cbn [hp] in E. destruct E as [A3 Er]. split; auto. eapply agree_trans; eauto.
+Qed.
+
+Lemma nth_error_in : forall A (l : list A) n x, nth_error l n = Some x -> In x l.
+Proof. intros. eapply nth_error_In; eauto. Qed.
+
+Lemma de_arr_loop_clean : forall rec a off len cap, good rec -> forall n i j s r s',
+  clean (hp s) -> (R a -> i = j /\ i + n = len) ->
+  run (de_arr_loop rec a off len cap n i j) s = Some (r, s') ->
+  agree R (hp s) (hp s') /\ (R a \/ len = 0 -> i = j -> i + n = len -> r = VArr a off len cap).
+Proof.
+  intros rec a off len cap G. induction n; intros i j s r s' C Inv E; cbn [de_arr_loop] in E.
+  - destruct (j <? len) eqn:Lj.
+    + apply Nat.ltb_lt in Lj. cbn [run] in E. destruct (nth_error (hp s) a) as [[cells|]|] eqn:Ea; try discriminate.
+      cbn [run] in E. destruct (a <? length (hp s)) eqn:La; try discriminate. apply Nat.ltb_lt in La.
+      cbn [run] in E. inversion E; subst; clear E. cbn [hp]. split.
+      * apply agree_put; auto. intros Ra. destruct (Inv Ra). lia.
+      * intros H Hij Hn. destruct H as [Ra|H0]. destruct (Inv Ra). lia. lia.
+    + apply Nat.ltb_ge in Lj. cbn in E. inversion E; subst. split; auto using agree_refl.
+      intros H Hij Hn. f_equal. destruct H as [Ra|H0]; lia.
+  - cbn [run] in E. destruct (nth_error (hp s) a) as [[cells|]|] eqn:Ea; try discriminate.
+    destruct (nth_error cells (off + i)) as [w|] eqn:Ew; try discriminate.
+    assert (R a -> w <> VEmpty /\ vin R w) as Hw.
+    { intros Ra. specialize (C a _ Ra Ea). cbn in C. rewrite Forall_forall in C. apply C. eapply nth_error_in; eauto. }
+    assert (run (w' <- rec w ;; Get a (fun c => match c with CArr cells => Put a (CArr (set_nth (off + j) w' cells)) (de_arr_loop rec a off len cap n (S i) (S j)) | CMap _ => Fail end)) s = Some (r, s')
+            -> agree R (hp s) (hp s') /\ (R a \/ len = 0 -> i = j -> i + S n = len -> r = VArr a off len cap)) as Gen.
+    { clear E. intros E. rewrite run_bind in E. destruct (run (rec w) s) as [[w' s1]|] eqn:E1; try discriminate.
+      destruct (G _ _ _ _ C E1) as [A1 W1]. cbn [run] in E.
+      destruct (nth_error (hp s1) a) as [[cells1|]|] eqn:Ea1; try discriminate. cbn [run] in E.
+      destruct (a <? length (hp s1)) eqn:La; try discriminate. apply Nat.ltb_lt in La.
+      assert (agree R (hp s1) (set_nth a (CArr (set_nth (off + j) w' cells1)) (hp s1))) as A2.
+      { apply agree_put; auto. intros Ra. destruct (Hw Ra) as [Hn Hv]. rewrite (W1 Hn Hv).
+        rewrite (A1 a Ra) in Ea1. rewrite Ea in Ea1. inversion Ea1; subst. destruct (Inv Ra) as [Hij _]. subst j.
+        rewrite set_nth_same; auto. rewrite (A1 a Ra). auto. }
+      apply IHn in E.
+      2:{ cbn [hp]. eapply clean_agree; [|exact A2]. eapply clean_agree; eauto. }
+      2:{ intros Ra. destruct (Inv Ra). lia. }
+      cbn [hp] in E. destruct E as [A3 Er]. split.
+      - eapply agree_trans; [exact A1|]. eapply agree_trans; eauto.
+      - intros H Hij Hn. apply Er; auto; lia. }
+    destruct w; try (apply Gen; exact E).
+    (* a marker element: impossible inside R *)
+    apply IHn in E; auto.
+    + destruct E as [A Er]. split; auto. intros H Hij Hn. destruct H as [Ra|H0].
+      destruct (Hw Ra) as [Hn' _]. congruence. lia.
+    + intros Ra. destruct (Hw Ra) as [Hn' _]. congruence.
+Qed.
+
+Lemma delete_empty_good : forall alloc fuel, good (delete_empty false alloc fuel).
+Proof.
+  intros alloc. induction fuel; intros v s r s' C E; cbn [delete_empty] in E. discriminate.
+  destruct v; try (cbn in E; inversion E; subst; split; auto using agree_refl; fail).
+  - cbn [andb] in E.
+    destruct (de_arr_loop_clean _ a off len cap IHfuel len 0 0 s r s' C (fun _ => conj eq_refl eq_refl) E) as [A Er].
+    split; auto. intros _ V. apply Er; auto. unfold vin, vaddr in V.
+    destruct (len =? 0) eqn:L0. right. apply Nat.eqb_eq; auto. left; auto.
+  - cbn [andb] in E. cbn [run] in E. destruct (nth_error (hp s) a) as [[|m0]|]; try discriminate.
+    destruct (de_obj_loop_clean _ a (VObj a) IHfuel _ _ _ _ C E) as [A Er]. split; auto.
+  - cbn in E; inversion E; subst. split; auto using agree_refl. intros H; congruence.
+Qed.
+
+(* every cell of R is EXACTLY what it was, although deleteEmpty wrote into it *)
+Theorem de_cells_unchanged : forall alloc fuel v s r s',
+  clean (hp s) -> run (delete_empty false alloc fuel v) s = Some (r, s') -> agree R (hp s) (hp s').
+Proof. intros. eapply delete_empty_good; eauto. Qed.
+
+End Clean.
+
+(* the native: no cell that existed before the call changes, provided the arguments hold no marker
+   (markers never leave delpaths) and are closed *)
+Theorem delpaths1_cells_unchanged : forall v ps h r s',
+  clean (below (length h)) h ->
+  run (delpaths1 false v ps) (start h []) = Some (r, s') ->
+  forall a, a < length h -> nth_error (hp s') a = nth_error h a.
+Proof.
+  intros v ps h r s' C E a La. unfold delpaths1 in E. destruct ps. cbn in E; inversion E; subst; auto.
+  rewrite run_bind in E. destruct (run (upd_all v (v0 :: ps) []) (start h [])) as [[ua s1]|] eqn:E1; try discriminate.
+  assert (safe s1) as S1. { eapply upd_all_psafe; eauto. intros x []. }
+  assert (agree (below (length h)) h (hp s1)) as A1.
+  { intros x Hx. eapply safe_unchanged; eauto. }
+  apply de_cells_unchanged with (R := below (length h)) in E.
+  - rewrite (E a La). apply A1; auto.
+  - eapply clean_agree; eauto.
+Qed.
+
+Theorem delpaths1_values_unchanged : forall v ps h r s' n x,
+  clean (below (length h)) h ->
+  run (delpaths1 false v ps) (start h []) = Some (r, s') ->
+  vin (below (length h)) x -> abs n (hp s') x = abs n h x.
+Proof.
+  intros. eapply abs_frame; eauto using clean_closed.
+  intros a Ha. eapply delpaths1_cells_unchanged; eauto.
+Qed.
